@@ -98,8 +98,10 @@ let run_qs cap blocked ops =
           | _, RPanic _ -> stop := true; letter ^ ":panic"
           | OEncode _, REncoded e ->
               let (p, reps) = e.en_block in
-              Printf.sprintf "E:%s:%s.%d.%s:%s:%s:%s" (sn e.en_required) (sn p.hp_eic) (if p.hp_sign then 1 else 0) (sn p.hp_delta)
-                (joinor ";" (List.map repstr reps)) (joinor ";" (List.map instrstr e.en_instrs)) (estate s1.s_enc)
+              let wire r = (match r with Ok b -> if b = [] then "-" else hx b | Err _ -> "wire-err" | Panic _ -> "wire-panic") in
+              Printf.sprintf "E:%s:%s.%d.%s:%s:%s:%s:%s:%s" (sn e.en_required) (sn p.hp_eic) (if p.hp_sign then 1 else 0) (sn p.hp_delta)
+                (joinor ";" (List.map repstr reps)) (joinor ";" (List.map instrstr e.en_instrs))
+                (wire (wire_block e.en_block)) (wire (wire_einstrs e.en_instrs)) (estate s1.s_enc)
           | OEncode _, REncErr e -> "E:err:" ^ enc_err_name e
           | ODeliver _, RDelivered (ins, inc) ->
               Printf.sprintf "I:%s:%s:%s" (sn ins) (match inc with Some i -> dinstrstr i | None -> "-") (dstate s1.s_dec)
@@ -153,5 +155,7 @@ let handle ws = match ws with
       (match hp_get { hp_eic = n_of_string e; hp_sign = (s = "1"); hp_delta = n_of_string d } (n_of_string t) (n_of_string m) with
        | Ok (r, b) -> Printf.sprintf "ok %s %s" (sn r) (sn b)
        | Err _ -> "err InvalidBase" | Panic _ -> "panic")
+      ^ " | " ^ (match rfc_required (n_of_string e) (n_of_string t) (n_of_string m) with
+                 | Some r -> "rfc-required " ^ sn r | None -> "rfc-error")
   | _ -> "driver-error unknown-case"
 let () = run_lines handle
